@@ -29,7 +29,7 @@
 """Handlers for triggers and action configs."""
 
 import abc
-import inspect
+import dis
 import threading
 from enum import Enum
 from types import FrameType
@@ -485,17 +485,19 @@ class LineLocation(Location):
 class FunctionLocation(Location):
     """A location for a method entry/exit/capture point."""
 
-    def __init__(self, path: str, function_name: Optional[str], position: Location.Position):
+    def __init__(self, path: str, function_name: Optional[str], position: Location.Position, line: int = -1):
         """
         Create a new method location.
 
         :param path:  the source file path
         :param function_name: the function name
         :param position: the position
+        :param line: the line of the tracepoint - with no function name, the function that contains this line is meant
         """
         super().__init__(position)
         self.__function_name = function_name
         self.__path = path
+        self.__tracepoint_line = line
 
     def at_location(self, event: str, file: str, line: int, function_name: str, frame: FrameType):
         """
@@ -513,11 +515,13 @@ class FunctionLocation(Location):
 
         # if method_name is not set then we need to discover it from the frame.
         if self.__function_name is None:
-            # load source lines
-            lines, start = inspect.getsourcelines(frame)
-            end = start + len(lines)
-            # if the targeted line is in the range of start to end
-            if start <= line >= end:
+            if event != "call":
+                return False
+            # is the line of the tracepoint code of the function being entered? (its own lines: the body of a
+            # nested function belongs to that function) - the event line is no use, on entry it is the 'def' line
+            code = frame.f_code
+            if self.__tracepoint_line == code.co_firstlineno or \
+                    self.__tracepoint_line in [line_no for _, line_no in dis.findlinestarts(code)]:
                 # set the method to this name (so we do not need to look it up again)
                 self.__function_name = function_name
                 return True
@@ -530,6 +534,9 @@ class FunctionLocation(Location):
     @property
     def id(self):
         """The location id."""
+        if self.__function_name is None:
+            # not discovered yet: two such tracepoints in one file are different locations
+            return "%s#%s" % (self.path, self.__tracepoint_line)
         return "%s#%s" % (self.path, self.__function_name)
 
     @property
@@ -679,7 +686,7 @@ def build_trigger(tp_id: str, path: str, line_no: int, args: Dict[str, str], wat
     if stage_ in LINE_STAGES:
         location = LineLocation(path, line_no, position)
     elif stage_ in METHOD_STAGES:
-        location = FunctionLocation(path, args.get(METHOD_NAME, None), position)
+        location = FunctionLocation(path, args.get(METHOD_NAME, None), position, line_no)
     else:
         return None
 
